@@ -428,3 +428,130 @@ def compare_expr(r, ncase, depth=4):
             dis.append({"kind": "expr-vs-model", "problems": [(f"derive {dv}", None if model is None else abs(model - res[1]))],
                         "input": {"expr": t, "values": values, "derive": dv}, "epgpy": res[1], "model": model})
     return len(expect), dis, cases
+
+
+# ---------------------------------------------------------------------------------------------
+# sharing patterns: the same virtual operator object reused, distinct operators that look alike
+# (same positional arguments, different keyword-only options or array constants of one shape),
+# repeat() mappings -- signal() and jacobian() against hand-built concrete operators
+# ---------------------------------------------------------------------------------------------
+def search_sharing(r, epg, ncase):
+    import warnings
+    from epgpy import sequence as sq
+
+    dis, checked = [], 0
+    dist = {"shared_object": 0, "lookalike_kw": 0, "lookalike_array": 0, "repeat": 0}
+    for _ in range(ncase):
+        vals = {"T2": float(r.uniform(20, 80)), "ph": float(r.uniform(-170, 170)), "att": float(r.uniform(0.6, 1.2)),
+                "r0": float(r.uniform(0.1, 1.0))}
+        desc = []  # (virtual factory, concrete factory) closures recorded as tuples for the replay
+        mode = ["kw", "array", "shared", "repeat"][r.integers(4)]
+        plan = [("T", 90.0, 90.0)]
+        nblk = int(r.integers(2, 5))
+        if mode == "kw":
+            dist["lookalike_kw"] += 1
+            for i in range(nblk):
+                plan.append(("E", float(r.choice([4.0, 5.0])), 1000.0, "T2"))
+                u = r.random()
+                if u < 0.5:
+                    plan.append(("ADCP", [0.0, "ph", float(np.round(r.uniform(-90, 90), 1))][r.integers(3)]))
+                else:
+                    plan.append(("R", 0.05, 0.002, ["r0", float(np.round(r.uniform(0.1, 1), 2)), None][r.integers(3)]))
+                    plan.append(("ADCP", None))
+        elif mode == "array":
+            dist["lookalike_array"] += 1
+            n = int(r.integers(2, 4))
+            for i in range(nblk):
+                plan.append(("Tatt", 30.0))
+                plan.append(("Earr", np.round(r.uniform(2, 15, size=n), 2).tolist(), 1000.0, "T2"))
+                plan.append(("ADCP", None))
+        elif mode == "shared":
+            dist["shared_object"] += 1
+            plan.append(("SHARED_E", float(r.uniform(3, 9)), 1000.0, "T2", nblk))
+        else:
+            dist["repeat"] += 1
+            n = int(r.integers(2, 4))
+            taus = [np.round(r.uniform(2, 15, size=n), 2).tolist() for _ in range(nblk)] if r.random() < 0.5 else \
+                [float(np.round(r.uniform(2, 15), 2)) for _ in range(nblk)]
+            plan.append(("REPEAT", taus))
+
+        def virtual():
+            ops = []
+            for p in plan:
+                if p[0] == "T":
+                    ops.append(sq.T(p[1], p[2]))
+                elif p[0] == "Tatt":
+                    ops.append(sq.T(p[1] * sq.Variable("att"), 0))
+                elif p[0] == "E":
+                    ops.append(sq.E(p[1], p[2], p[3]))
+                elif p[0] == "Earr":
+                    ops.append(sq.E(np.array(p[1]), p[2], p[3]))
+                elif p[0] == "R":
+                    ops.append(sq.R(p[1], p[2]) if p[3] is None else sq.R(p[1], p[2], r0=p[3]))
+                elif p[0] == "ADCP":
+                    ops.append(sq.Adc() if p[1] is None else sq.Adc(phase=p[1]))
+                elif p[0] == "SHARED_E":
+                    e = sq.E(p[1], p[2], p[3])
+                    rf = sq.T(20 * sq.Variable("att"), 0)
+                    for _ in range(p[4]):
+                        ops += [rf, e, sq.S(1), sq.ADC]
+                elif p[0] == "REPEAT":
+                    block = [sq.T(30 * sq.Variable("att"), 0), sq.E("tau", 1e3, "T2"), sq.ADC]
+                    ops += sq.repeat(block, len(p[1]), tau=[np.array(t) if isinstance(t, list) else t for t in p[1]])
+            return sq.Sequence(ops)
+
+        def concrete(v):
+            ops = []
+            for p in plan:
+                if p[0] == "T":
+                    ops.append(epg.T(p[1], p[2]))
+                elif p[0] == "Tatt":
+                    ops.append(epg.T(p[1] * v["att"], 0))
+                elif p[0] == "E":
+                    ops.append(epg.E(p[1], p[2], v[p[3]]))
+                elif p[0] == "Earr":
+                    ops.append(epg.E(np.array(p[1]), p[2], v[p[3]]))
+                elif p[0] == "R":
+                    r0 = p[3]
+                    ops.append(epg.R(p[1], p[2]) if r0 is None else epg.R(p[1], p[2], r0=v[r0] if isinstance(r0, str) else r0))
+                elif p[0] == "ADCP":
+                    ph = p[1]
+                    ops.append(epg.Adc() if ph is None else epg.Adc(phase=v[ph] if isinstance(ph, str) else ph))
+                elif p[0] == "SHARED_E":
+                    for _ in range(p[4]):
+                        ops += [epg.T(20 * v["att"], 0), epg.E(p[1], p[2], v[p[3]]), epg.S(1), epg.ADC]
+                elif p[0] == "REPEAT":
+                    for t in p[1]:
+                        ops += [epg.T(30 * v["att"], 0), epg.E(np.array(t) if isinstance(t, list) else t, 1e3, v["T2"]), epg.ADC]
+            return np.moveaxis(np.asarray(epg.simulate(ops, asarray=True)), 0, -1)
+
+        try:
+            with warnings.catch_warnings():
+                warnings.simplefilter("ignore")
+                seq = virtual()
+                used = sorted(str(x) for x in seq.variables)
+                v = {k: vals[k] for k in used}
+                sig = np.asarray(seq.signal(**v))
+                ref = concrete(vals)
+                probs = []
+                if sig.shape != ref.shape or not np.allclose(sig, ref, atol=1e-10):
+                    probs.append(("signal differs from the hand-built concrete operators", sig.tolist(), ref.tolist()))
+                else:
+                    diffvars = [k for k in used if k in ("T2", "att")]
+                    if diffvars:
+                        _, jac = seq.jacobian(diffvars, **v)
+                        jac = np.asarray(jac)
+                        for i, k in enumerate(diffvars):
+                            h = 1e-5 * max(1.0, abs(vals[k]))
+                            fd = (concrete({**vals, k: vals[k] + h}) - concrete({**vals, k: vals[k] - h})) / (2 * h)
+                            if jac[..., i].shape != fd.shape or not np.allclose(jac[..., i], fd, rtol=1e-5, atol=1e-8):
+                                probs.append((f"jacobian w.r.t. {k} differs from finite differences of the hand-built sequence",
+                                              jac[..., i].tolist(), fd.tolist()))
+                                break
+        except Exception as exc:
+            dis.append({"kind": "c11-sharing", "problems": [("raised", repr(exc))], "input": {"plan": plan, "values": vals}})
+            continue
+        checked += 1
+        if probs:
+            dis.append({"kind": "c11-sharing", "problems": probs, "input": {"plan": plan, "values": vals}})
+    return checked, dis, dist
